@@ -648,6 +648,7 @@ func TestFrames(t *testing.T) {
 		if shard == 0 {
 			for _, fr := range append(frs, framing{"RawJSON", channel.RawJSON, "", "", 0}) {
 				independentChannels(fr, res)
+				fullDuplex(fr, res)
 			}
 		}
 		// all sequences of <= 2 classes, and sampled triples
@@ -805,6 +806,58 @@ func independentChannels(fr framing, res *result) {
 		if err != nil && !isCT(err) || !bytes.Equal(got, x.want) {
 			res.add(violation{"C11", fr.name, "two channels, one framing", nil, false,
 				fmt.Sprintf("channel %s transmitted %q (decodes to %q, err %v) for the record %q while the other channel of the same framing was sending", x.who, x.data, got, err, x.want)})
+			return
+		}
+	}
+}
+
+// fullDuplex: one channel, both directions at once (what every client and server does with its channel): a Send is held
+// inside the writer while records arrive and are received on the same channel. What is transmitted is the record that was
+// sent, what is received are the records that came in - neither direction borrows the other's buffer.
+func fullDuplex(fr framing, res *result) {
+	mk := func(tag string, n int) []byte {
+		if fr.name == "RawJSON" {
+			return []byte(fmt.Sprintf(`{"dir":%q,"pad":"%s"}`, tag, strings.Repeat(tag[:1], n)))
+		}
+		return []byte(tag + "-" + strings.Repeat(tag[:1], n))
+	}
+	for _, sz := range [][3]int{{60, 30, 40}, {3000, 20, 2000}, {200, 3000, 10}, {5000, 100, 4090}} {
+		out, in1, in2 := mk("out", sz[0]), mk("in", sz[1]), mk("next", sz[2])
+		enc := &capWC{}
+		ref := fr.f(strings.NewReader(""), enc)
+		if ref.Send(in1) != nil || ref.Send(in2) != nil {
+			res.add(violation{"C11", fr.name, "full duplex", nil, false, "harness: the reference channel refused a plain record"})
+			return
+		}
+		gw := &gateWriter{entered: make(chan struct{}), gate: make(chan struct{})}
+		ch := fr.f(bytes.NewReader(enc.buf.Bytes()), gw)
+		done := make(chan error, 1)
+		go func() { done <- ch.Send(out) }()
+		select {
+		case <-gw.entered:
+		case <-time.After(10 * time.Second):
+			res.add(violation{"C11", fr.name, "full duplex", nil, false, "Send never reached the writer"})
+			return
+		}
+		g1, e1 := ch.Recv()
+		g1 = append([]byte(nil), g1...)
+		g2, e2 := ch.Recv()
+		g2 = append([]byte(nil), g2...)
+		close(gw.gate)
+		es := <-done
+		res.Evaluations++
+		what := fmt.Sprintf("full duplex (a %d-byte record being sent while records of %d and %d bytes arrive)", len(out), len(in1), len(in2))
+		if es != nil || (e1 != nil && !isCT(e1)) || (e2 != nil && !isCT(e2)) {
+			res.add(violation{"C11", fr.name, what, nil, false, fmt.Sprintf("errors: Send %v, Recv %v, %v", es, e1, e2)})
+			return
+		}
+		if !bytes.Equal(g1, in1) || !bytes.Equal(g2, in2) {
+			res.add(violation{"C11", fr.name, what, nil, false, fmt.Sprintf("received %.60q and %.60q, what came in was %.60q and %.60q", g1, g2, in1, in2)})
+			return
+		}
+		sent, err := fr.f(bytes.NewReader(gw.buf.Bytes()), nopWC{io.Discard}).Recv()
+		if (err != nil && !isCT(err)) || !bytes.Equal(sent, out) {
+			res.add(violation{"C11", fr.name, what, nil, false, fmt.Sprintf("transmitted %.80q (decodes to %.60q, err %v) for the record %.60q", gw.buf.Bytes(), sent, err, out)})
 			return
 		}
 	}
